@@ -1,8 +1,8 @@
 package main
 
 import (
-	"sort"
 	"go/token"
+	"sort"
 
 	"golang.org/x/tools/go/ssa"
 )
